@@ -1,6 +1,6 @@
 """C13 - tags on the wire are exactly the type's tags (E1 over tag stacks + every single perturbation)."""
 from mc.checks import codec_matrix as CM
-from mc.core.runner import Result, pyasn1_site, exc_text
+from mc.core.runner import guarded, InternalError, Result, pyasn1_site, exc_text
 from mc.model import x690 as M
 from mc.model import universe as U
 from mc.bind import pyasn1_bind as B
@@ -160,7 +160,7 @@ def check_case(idx, T, v, R, tier):
         try:
             M.read(T2, ref)
             if kind != 'mode':
-                raise RuntimeError('reference reader accepts %s under perturbed type %r' % (ref.hex(), T2))
+                raise InternalError('reference reader accepts %s under perturbed type %r' % (ref.hex(), T2))
             R.features['perturb:legitimately_accepted'] += 1
             continue
         except M.ReadError:
@@ -218,7 +218,7 @@ def shard(tier, i, n, seed):
     for idx, T, v in cases(tier):
         if (idx + seed) % n != i:
             continue
-        check_case(idx, T, v, R, tier)
+        guarded(R, lambda: check_case(idx, T, v, R, tier), {'T': T, 'v': v}, CM.type_features(T), idx)
         if idx % 997 == seed % 997:
             R.sample({'T': M.show_type(T), 'identifiers': [x.hex() for x in ident_chain(M.der(T, v), max(1, len(M.tag_stack(T))))]
                       if 'real10' not in CM.value_features(T, v) else None})
